@@ -325,8 +325,10 @@ where
                 DecForm::SymbolsStepBy(r1),
                 DecForm::TrySymbolsSkip(r2),
                 DecForm::IidNth(r3),
+                DecForm::IidCount,
+                DecForm::SymbolsLast,
             ]);
-            if matches!(form, DecForm::Iid | DecForm::IidNth(_)) {
+            if matches!(form, DecForm::Iid | DecForm::IidNth(_) | DecForm::IidCount) {
                 // need identical model for all
                 let m0 = shadow.last().unwrap().model;
                 let mut j = 0;
